@@ -245,6 +245,13 @@ def run_scenario(acc, spec, monitors_factory, seed=0, max_events=None, max_secon
         import traceback
         raise core.Inconclusive(f"scenario {spec.get('name', spec['kind'])} could not be built: "
                                 + traceback.format_exc()[-800:])
+    if spec.get("heap_counter_preset"):
+        # white-box poke (the only state injection besides C06's): every handler's lazy-deletion counter starts just below
+        # 2^32, as if that many of its events had been trashed before; the counter-overflow path is then taken during the run
+        sched = mediator._scheduler
+        if hasattr(sched, "_minimal_valid_counter"):
+            for h in mediator._activator.get_event_handlers():
+                sched._minimal_valid_counter[h] = 2 ** 32 - int(spec["heap_counter_preset"])
     monitors = monitors_factory()
     bus = Bus(mediator, monitors, max_events=max_events, max_seconds=max_seconds, acc=acc, label=str(spec.get("name", spec["kind"])))
     bus.cfg = cfg
